@@ -436,3 +436,13 @@ pub fn parse_untrusted(text: &str) -> Result<ldpc_toolbox::sparse::SparseMatrix,
         }
     }
 }
+
+/// What `./run.sh selftest` last recorded about the simulator's stubs (model conformance against
+/// real std and shuttle), for the evidence of the checks that rest on those stubs.
+pub fn stub_conformance() -> serde_json::Value {
+    std::fs::read_to_string(verif_dir().join("selftest_report.json"))
+        .ok()
+        .and_then(|t| serde_json::from_str::<serde_json::Value>(&t).ok())
+        .map(|v| serde_json::json!({"source": "selftest_report.json (written by ./run.sh selftest)", "model_conformance": v["model_conformance"]}))
+        .unwrap_or(serde_json::json!({"source": "selftest_report.json not found; run ./run.sh selftest"}))
+}
